@@ -747,6 +747,17 @@ func ruleP2(r *Run) {
 						}
 					}
 				}
+			case *ast.AssignStmt:
+				// actives[i] += delta with delta a local that holds the constant 1 (a counter helper substituted for its call)
+				if x.Tok == token.ADD_ASSIGN && len(x.Lhs) == 1 && len(x.Rhs) == 1 && !incPos.IsValid() {
+					if ie, ok := ast.Unparen(x.Lhs[0]).(*ast.IndexExpr); ok {
+						if fv := fieldOf(info, ie.X); fv != nil && fv.Name() == "actives" {
+							if v, ok := localConst(info, fd.Body, x.Rhs[0]); ok && v == 1 {
+								incPos, incIdx = x.Pos(), identObj(info, ie.Index)
+							}
+						}
+					}
+				}
 			case *ast.DeferStmt:
 				if fl, ok := ast.Unparen(x.Call.Fun).(*ast.FuncLit); ok {
 					ast.Inspect(fl.Body, func(m ast.Node) bool {
@@ -775,7 +786,7 @@ func ruleP2(r *Run) {
 		})
 		// the same through a counter helper of the balancer: addActive(index, +1); defer addActive(index, -1)
 		// where the helper does actives[param] += delta between Lock and Unlock
-		if !incPos.IsValid() {
+		if !incPos.IsValid() || !decDeferPos.IsValid() {
 			isCounterHelper := func(call *ast.CallExpr) (idxArg ast.Expr, delta int64, locked, ok bool) {
 				d, cpkg := p.calleeDecl(info, call)
 				if d == nil || len(call.Args) != 2 {
@@ -820,7 +831,7 @@ func ruleP2(r *Run) {
 						}
 					}
 				case *ast.DeferStmt:
-					if ia, dv, locked, ok := isCounterHelper(x.Call); ok && dv == -1 {
+					if ia, dv, locked, ok := isCounterHelper(x.Call); ok && dv == -1 && !decDeferPos.IsValid() {
 						decDeferPos, decIdx = x.Pos(), identObj(info, ia)
 						decUnderLock = locked
 					}
@@ -1343,3 +1354,44 @@ func ruleL7(r *Run) {
 	r.Ok("functions with slice parameters scanned", 0, fmt.Sprintf("%d functions, no append into parameter storage", nChecked))
 }
 
+
+// localConst: the integer constant an expression stands for - a constant expression, or a local declared once with one
+func localConst(info *types.Info, body ast.Node, e ast.Expr) (int64, bool) {
+	if v, ok := intConst(info, e); ok {
+		return v, true
+	}
+	o := identObj(info, e)
+	if o == nil {
+		return 0, false
+	}
+	var val int64
+	n := 0
+	ast.Inspect(body, func(m ast.Node) bool {
+		switch d := m.(type) {
+		case *ast.ValueSpec:
+			for i, nm := range d.Names {
+				if info.Defs[nm] == o && i < len(d.Values) {
+					if v, ok := intConst(info, d.Values[i]); ok {
+						val = v
+						n++
+					} else {
+						n += 2
+					}
+				}
+			}
+		case *ast.AssignStmt:
+			for i, l := range d.Lhs {
+				if identObj(info, l) == o && i < len(d.Rhs) {
+					if v, ok := intConst(info, d.Rhs[i]); ok && d.Tok == token.DEFINE {
+						val = v
+						n++
+					} else {
+						n += 2
+					}
+				}
+			}
+		}
+		return true
+	})
+	return val, n == 1
+}
